@@ -216,10 +216,12 @@ class FileSystemLoader(BaseLoader):
                 f"{template!r} not found in search {plural}: {paths_str}",
             )
 
+        # Take the mtime before reading: a change between the two is then
+        # noticed by the next uptodate check instead of being cached.
+        mtime = os.path.getmtime(filename)
+
         with open(filename, encoding=self.encoding) as f:
             contents = f.read()
-
-        mtime = os.path.getmtime(filename)
 
         def uptodate() -> bool:
             # A template added to an earlier search path takes precedence.
@@ -387,10 +389,11 @@ class PackageLoader(BaseLoader):
             if not os.path.isfile(p):
                 raise TemplateNotFound(template)
 
+            # Take the mtime before reading, see FileSystemLoader.
+            mtime = os.path.getmtime(p)
+
             with open(p, "rb") as f:
                 source = f.read()
-
-            mtime = os.path.getmtime(p)
 
             def up_to_date() -> bool:
                 return os.path.isfile(p) and os.path.getmtime(p) == mtime
